@@ -1,7 +1,7 @@
 #!/usr/bin/env python3
 """Run the registered check of each seeded change in /verif/seeded against /repo (apply, check, undo) and
 record the outcome in its meta.json.  usage: harness/seeded_report.py [Cxx-mN ...] [--tier quick]"""
-import json, subprocess, sys
+import json, os, subprocess, sys
 from pathlib import Path
 V = Path(__file__).resolve().parent.parent
 names = [a for a in sys.argv[1:] if not a.startswith("--")]
@@ -19,7 +19,12 @@ for d in dirs:
     finally:
         subprocess.run(["git", "-C", "/repo", "checkout", "--", "."])
     viol = [l for l in p.stdout.splitlines() if l.startswith("VIOLATION")]
-    meta["detected_by"] = {"check": f"./check {prop} --tier {tier}", "exit": p.returncode, "violation_lines": viol[:3],
-                           "with_failing_input": any("no-failing-input-found" not in l for l in viol)}
+    seed = os.environ.get("VERIF_SEED", "0")
+    rec = {"check": f"./check {prop} --tier {tier}", "exit": p.returncode, "violation_lines": viol[:3],
+           "with_failing_input": any("no-failing-input-found" not in l for l in viol)}
+    if seed == "0":
+        meta["detected_by"] = rec
+    else:
+        meta.setdefault("detected_by_other_seeds", {})[seed] = {"exit": p.returncode, "with_failing_input": rec["with_failing_input"]}
     (d / "meta.json").write_text(json.dumps(meta, indent=1))
     print(d.name, "exit", p.returncode, viol[:2])
